@@ -241,6 +241,9 @@ def run(ctx):
     F = ctx.facts("core")
     r3_star_params(ctx, F)
     r5_no_ordered_dedup_of_types(ctx, F)
+    # the annotation of an assignment survives the re-optimisation on freeze (shared with C02.R10)
+    from rules.C02 import r10_optimize_keeps_components
+    r10_optimize_keeps_components(ctx, F, rule="C16.R6")
     r4_union_exact(ctx, F)
     r1(ctx, F)
     r1b(ctx, F)
